@@ -288,6 +288,8 @@ def truth(v):
 
 
 def _pat_ok(p):
+    if z3.is_app(p) and p.decl().kind() == z3.Z3_OP_UNINTERPRETED and p.num_args() == 0:
+        return False
     s = p.sexpr()
     return "(ite " not in s and "(lambda " not in s
 
